@@ -40,7 +40,8 @@ def load_mutants(prop=None):
                 out.append(x)
     # the stored changes of independent sub-agents: breaking ones (seeded/<PROP>_<k>) must be reported by their property's check, behaviour-preserving ones
     # (neutral/<PROP>_n<k>) must leave EVERY check silent - here: the check of the slice
-    for kind, expect in (('seeded', 'fire'), ('neutral', 'silent')):
+    # reverts/<PROP>_r<commit>: the reverse of a `fix:` commit of the repository - the defect as it was in the tree; the property's check must report it again
+    for kind, expect in (('seeded', 'fire'), ('reverts', 'fire'), ('neutral', 'silent')):
         d2 = os.path.join(VERIF, kind)
         if not os.path.isdir(d2):
             continue
@@ -49,10 +50,10 @@ def load_mutants(prop=None):
             if not os.path.isfile(pf):
                 continue
             own = name.split('_')[0]
-            if kind == 'seeded':
+            if kind in ('seeded', 'reverts'):
                 if prop and own != prop:
                     continue
-                out.append(dict(prop=own, name=f'seed-{name}', patch=pf, expect='fire', rule=None))
+                out.append(dict(prop=own, name=f'{"seed" if kind == "seeded" else "revert"}-{name}', patch=pf, expect='fire', rule=None))
             else:
                 for pid in ([prop] if prop else [own]):
                     out.append(dict(prop=pid, name=f'neutral-{name}', patch=pf, expect='silent'))
